@@ -76,7 +76,8 @@ def run(ctx):
         # synthesised layouts: MP4 atom layouts (64-bit headers, split media, fragments), a few tails for ID3-framed files
         synth = containers.synth_samples(ctx, fmt)
         if fmt.kind == "MP4":
-            todo += synth if not ctx.quick else synth[-2:] + synth[:1]
+            # quick tier: the layouts with 64-bit atom headers (their size patching has its own read/convert path) and one more
+            todo += synth if not ctx.quick else [x for x in synth if "-wide" in x[0]] + synth[:1]
         elif synth:
             todo += synth[:2] if ctx.quick else synth[:6]
         for sname, data in todo:
